@@ -51,7 +51,8 @@ VARIABLES
   pruned,       \* ghost: ids that were in files removed by the size limit
   excused,      \* ghost: ids at or behind a damaged byte in the same file
   curH, topH,   \* height the node works on; highest height whose #ENDHEIGHT write was started
-  mode,         \* "run" | "ending" (between Write(EH) and its FlushAndSync)
+  mode,         \* "run" | "ending" (between Write(EH) and its FlushAndSync) | "midwrite" (between two group writes of one record)
+  pend,         \* midwrite: the chunk still to be written and what the caller does afterwards
   applied,      \* inputs applied in the current height (stands for the round state)
   crashApplied, crashH,   \* `applied` / height at the last crash or stop
   lastStart,    \* result of the last Reopen
@@ -61,9 +62,9 @@ VARIABLES
   ncrash, nstop, ncorrupt, nreopen, nbig,
   act           \* the action that produced this state (read by the replay driver only)
 
-vars == <<w, written, acked, pruned, excused, curH, topH, mode, applied, crashApplied, crashH,
+vars == <<w, written, acked, pruned, excused, curH, topH, mode, pend, applied, crashApplied, crashH,
           lastStart, lastPrune, lastRead, openId, ncrash, nstop, ncorrupt, nreopen, nbig, act>>
-View == <<w, written, acked, pruned, excused, curH, topH, mode, applied, crashApplied, crashH,
+View == <<w, written, acked, pruned, excused, curH, topH, mode, pend, applied, crashApplied, crashH,
           lastStart, lastPrune, lastRead, openId, ncrash, nstop, ncorrupt, nreopen, nbig>>
 
 NextId == Len(written) + 1
@@ -77,10 +78,12 @@ MustKeep == acked \ (pruned \cup excused)
 \* a nil return of FlushAndSync covers everything handed to this WAL object so far
 SinceOpen(ws) == {ws[k].id : k \in {j \in 1..Len(ws) : ws[j].id >= openId}}
 
+NoPend == [chunk |-> Whole([id |-> 0, kind |-> "rs", h |-> 0, size |-> 0]), sync |-> FALSE, isin |-> FALSE]
+
 Init ==
   /\ w = EmptyWal(BufCap, HeadLimit, TotalLimit)
   /\ written = << >> /\ acked = {} /\ pruned = {} /\ excused = {}
-  /\ curH = 1 /\ topH = 0 /\ mode = "run"
+  /\ curH = 1 /\ topH = 0 /\ mode = "run" /\ pend = NoPend
   /\ applied = << >> /\ crashApplied = << >> /\ crashH = 1
   /\ lastStart = [res |-> "none", csH |-> 0, marker |-> FALSE, restoreOK |-> TRUE]
   /\ lastPrune = [before |-> << >>, removed |-> << >>]
@@ -88,7 +91,8 @@ Init ==
   /\ ncrash = 0 /\ nstop = 0 /\ ncorrupt = 0 /\ nreopen = 0 /\ nbig = 0
   /\ act = [name |-> "Init"]
 
-UnchangedGhost == UNCHANGED <<pruned, excused, lastStart, lastPrune, lastRead, openId, ncrash, nstop, ncorrupt, nreopen>>
+UnchangedGhostW == UNCHANGED <<pruned, excused, lastStart, lastPrune, lastRead, openId, ncrash, nstop, ncorrupt, nreopen>>
+UnchangedGhost == UNCHANGED <<pend, pruned, excused, lastStart, lastPrune, lastRead, openId, ncrash, nstop, ncorrupt, nreopen>>
 
 \* ---------------------------------------------------------------- start-up
 (* The state store is ahead of or equal to the WAL: after a crash the handshake brings the
@@ -120,7 +124,7 @@ Reopen ==
        IN /\ w' = IF Len(echo) = 0 THEN r.w ELSE WriteRec(r.w, echo[1])
           /\ written' = written \o new \o echo
           /\ acked' = acked \cup {new[k].id : k \in 1..Len(new)}
-          /\ curH' = csH /\ mode' = "run"
+          /\ curH' = csH /\ mode' = "run" /\ pend' = NoPend
           /\ applied' = restored
           /\ lastStart' = [res |-> r.res, csH |-> csH, marker |-> marker, restoreOK |-> restoreOK]
           /\ lastRead' = IF r.res = "fail" THEN lastRead ELSE IdSeq(RecsOf(StrictAll(r.w, 0)))
@@ -134,14 +138,35 @@ Reopen ==
 \* ---------------------------------------------------------------- the running node
 CanWrite == w.open /\ mode = "run" /\ Len(written) < MaxRecs /\ lastStart.res # "fail"
 
+(* wal.Write / wal.WriteSync: WALEncoder.Encode hands the record to the group in Chunks(r) Write
+   calls, each under the group's mutex on its own.  Between two of them the group's ticker
+   goroutine (CheckHeadA, CheckTotalA), the flush ticker (FlushHalf) and a crash may run.        *)
 DoWrite(kind, size, sync) ==
   LET r  == [id |-> NextId, kind |-> kind, h |-> curH, size |-> size]
-      w1 == WriteRec(w, r)
-  IN /\ w' = IF sync THEN FlushSync(w1) ELSE w1
-     /\ written' = Append(written, r)
-     /\ acked' = IF sync THEN acked \cup SinceOpen(Append(written, r)) ELSE acked
-     /\ applied' = IF kind = "in" THEN Append(applied, r.id) ELSE applied
-     /\ act' = [name |-> IF sync THEN "WriteSync" ELSE "Write", rec |-> r]
+      cs == Chunks(r)
+      w1 == WriteRec(w, cs[1])
+  IN /\ written' = Append(written, r)
+     /\ IF Len(cs) = 1
+        THEN /\ w' = IF sync THEN FlushSync(w1) ELSE w1
+             /\ acked' = IF sync THEN acked \cup SinceOpen(Append(written, r)) ELSE acked
+             /\ applied' = IF kind = "in" THEN Append(applied, r.id) ELSE applied
+             /\ mode' = mode /\ pend' = pend
+             /\ act' = [name |-> IF sync THEN "WriteSync" ELSE "Write", rec |-> r]
+        ELSE /\ w' = w1
+             /\ acked' = acked /\ applied' = applied
+             /\ mode' = "midwrite" /\ pend' = [chunk |-> cs[2], sync |-> sync, isin |-> kind = "in"]
+             /\ act' = [name |-> IF sync THEN "WriteSyncBegin" ELSE "WriteBegin", rec |-> r]
+
+WriteEnd ==
+  /\ w.open /\ mode = "midwrite"
+  /\ LET w1 == WriteRec(w, pend.chunk) IN
+       /\ w' = IF pend.sync THEN FlushSync(w1) ELSE w1
+       /\ acked' = IF pend.sync THEN acked \cup SinceOpen(written) ELSE acked
+       /\ applied' = IF pend.isin THEN Append(applied, pend.chunk.id) ELSE applied
+  /\ mode' = "run" /\ pend' = NoPend
+  /\ act' = [name |-> "WriteEnd"]
+  /\ UNCHANGED <<written, pruned, excused, curH, topH, crashApplied, crashH, lastStart, lastPrune, lastRead, openId,
+                 ncrash, nstop, ncorrupt, nreopen, nbig>>
 
 WriteIn ==
   /\ CanWrite
@@ -149,22 +174,22 @@ WriteIn ==
        /\ big => nbig < MaxBig
        /\ DoWrite("in", IF big THEN BigSize ELSE SmallSize, FALSE)
        /\ nbig' = IF big THEN nbig + 1 ELSE nbig
-  /\ UNCHANGED <<curH, topH, mode, crashApplied, crashH>> /\ UnchangedGhost
+  /\ UNCHANGED <<curH, topH, crashApplied, crashH>> /\ UnchangedGhostW
 
 WriteRS ==
   /\ CanWrite
   /\ DoWrite("rs", SmallSize, FALSE)
-  /\ UNCHANGED <<curH, topH, mode, crashApplied, crashH, nbig>> /\ UnchangedGhost
+  /\ UNCHANGED <<curH, topH, crashApplied, crashH, nbig>> /\ UnchangedGhostW
 
 WriteSyncIn ==
   /\ CanWrite
   /\ DoWrite("in", SmallSize, TRUE)
-  /\ UNCHANGED <<curH, topH, mode, crashApplied, crashH, nbig>> /\ UnchangedGhost
+  /\ UNCHANGED <<curH, topH, crashApplied, crashH, nbig>> /\ UnchangedGhostW
 
 EHBegin ==
   /\ CanWrite /\ curH <= MaxH
   /\ LET r == [id |-> NextId, kind |-> "eh", h |-> curH, size |-> SmallSize] IN
-       /\ w' = WriteRec(w, r)
+       /\ w' = WriteRec(w, Whole(r))     \* (the marker is written like any record; kept in one step here)
        /\ written' = Append(written, r)
        /\ act' = [name |-> "Write", rec |-> r]
   /\ topH' = curH /\ mode' = "ending"
@@ -189,7 +214,7 @@ Flush ==
 \* moment the kernel has the bytes and the disk does not): a crash here can tear the tail
 FlushHalf ==
   /\ w.open /\ w.buf # << >>
-  /\ w' = [w EXCEPT !.hu = w.hu \o GoodItems(w.buf), !.buf = << >>, !.part = 0]
+  /\ w' = FlushOnly(w)
   /\ act' = [name |-> "FlushHalf"]
   /\ UNCHANGED <<written, acked, curH, topH, mode, applied, crashApplied, crashH, nbig>> /\ UnchangedGhost
 
@@ -208,7 +233,7 @@ CheckTotalA ==
         /\ pruned' = pruned \cup gone
         /\ lastPrune' = [before |-> [k \in 1..Len(w.disk) |-> w.disk[k].idx], removed |-> r.removed]
         /\ act' = [name |-> "CheckTotal", removed |-> r.removed]
-  /\ UNCHANGED <<written, acked, excused, curH, topH, mode, applied, crashApplied, crashH, lastStart, lastRead,
+  /\ UNCHANGED <<written, acked, excused, curH, topH, mode, pend, applied, crashApplied, crashH, lastStart, lastRead,
                  openId, ncrash, nstop, ncorrupt, nreopen, nbig>>
 
 SearchTouch ==
@@ -228,7 +253,7 @@ Stop ==
   /\ crashApplied' = applied /\ crashH' = curH /\ applied' = << >>
   /\ nstop' = nstop + 1
   /\ act' = [name |-> "Stop"]
-  /\ UNCHANGED <<written, pruned, excused, curH, topH, mode, lastStart, lastPrune, lastRead, openId, ncrash, ncorrupt, nreopen, nbig>>
+  /\ UNCHANGED <<written, pruned, excused, curH, topH, mode, pend, lastStart, lastPrune, lastRead, openId, ncrash, ncorrupt, nreopen, nbig>>
 
 TornSizesFor(size) == {n \in TornSizes : n < size}
 
@@ -239,7 +264,7 @@ Crash ==
        /\ act' = [name |-> "Crash", j |-> c.j, tk |-> c.tk]
   /\ crashApplied' = applied /\ crashH' = curH /\ applied' = << >>
   /\ ncrash' = ncrash + 1
-  /\ UNCHANGED <<written, acked, pruned, excused, curH, topH, mode, lastStart, lastPrune, lastRead, openId, nstop, ncorrupt, nreopen, nbig>>
+  /\ UNCHANGED <<written, acked, pruned, excused, curH, topH, mode, pend, lastStart, lastPrune, lastRead, openId, nstop, ncorrupt, nreopen, nbig>>
 
 Corrupt ==
   /\ ~w.open /\ ncorrupt < MaxCorrupt
@@ -255,10 +280,10 @@ Corrupt ==
             /\ excused' = excused \cup IdsOfFile(SubSeq(w.disk[k].items, p, Len(w.disk[k].items)))
             /\ act' = [name |-> "Corrupt", file |-> w.disk[k].idx, pos |-> p, cls |-> cls]
   /\ ncorrupt' = ncorrupt + 1
-  /\ UNCHANGED <<written, acked, pruned, curH, topH, mode, applied, crashApplied, crashH, lastStart, lastPrune,
+  /\ UNCHANGED <<written, acked, pruned, curH, topH, mode, pend, applied, crashApplied, crashH, lastStart, lastPrune,
                  lastRead, openId, ncrash, nstop, nreopen, nbig>>
 
-Next == Reopen \/ WriteIn \/ WriteRS \/ WriteSyncIn \/ EHBegin \/ EHFinish \/ Flush \/ FlushHalf \/ CheckHeadA
+Next == Reopen \/ WriteIn \/ WriteRS \/ WriteSyncIn \/ WriteEnd \/ EHBegin \/ EHFinish \/ Flush \/ FlushHalf \/ CheckHeadA
         \/ CheckTotalA \/ SearchTouch \/ Stop \/ Crash \/ Corrupt
 
 Spec == Init /\ [][Next]_vars
